@@ -1007,14 +1007,31 @@ func c02AdapterKeepsEveryReceipt(c *Ctx) {
 			n++
 			lt := ""
 			fromReceipts := false
-			for v := range backSlice(mk.Len) {
-				if fa, ok := v.(*ssa.FieldAddr); ok && fieldName(fa.X.Type(), fa.Field) == "Receipts" {
-					fromReceipts = true
-				}
-				if fld, ok := v.(*ssa.Field); ok && fieldName(fld.X.Type(), fld.Field) == "Receipts" {
-					fromReceipts = true
+			var scan func(v ssa.Value, d int)
+			scan = func(v ssa.Value, d int) {
+				for x := range backSlice(v) {
+					if fa, ok := x.(*ssa.FieldAddr); ok && fieldName(fa.X.Type(), fa.Field) == "Receipts" {
+						fromReceipts = true
+					}
+					if fld, ok := x.(*ssa.Field); ok && fieldName(fld.X.Type(), fld.Field) == "Receipts" {
+						fromReceipts = true
+					}
+					// the list handed in as a parameter of a helper: what the callers pass
+					if pa, ok := x.(*ssa.Parameter); ok && d < 2 && pa.Parent() != nil {
+						for i, q := range pa.Parent().Params {
+							if q != pa {
+								continue
+							}
+							for _, cs := range p.callersOf(pa.Parent()) {
+								if a := cs.Args(); i < len(a) {
+									scan(a[i], d+1)
+								}
+							}
+						}
+					}
 				}
 			}
+			scan(mk.Len, 0)
 			lt = term(mk.Len)
 			c.check(fromReceipts, "adapter-complete", "AdaptBlock: receipts list length", p.Pos(posOf(in, g)), "as many receipts as the response carries", "the adapted block's receipts list is sized by "+clip(lt, 120)+", not by the number of receipts in the response: surplus (or missing) receipts are dropped before block verification can reject the block")
 		})
